@@ -196,7 +196,31 @@ func c09(tier string, args []string) int {
 					if !addressed(rec, v, g) || g.Event == string(spf.EventInitProposal) || g.Event == string(types.ReinitDKG) {
 						continue
 					}
-					for _, mu := range authMutants(rec, g) {
+					muts := authMutants(rec, g)
+					// the same message aimed at every other round the node knows of (a second
+					// round, a round left behind by a refused proposal), without a valid signature
+					for rid := range bs.Snap.Rounds() {
+						if rid == rec.Round {
+							continue
+						}
+						m1 := g
+						m1.DkgRoundID = rid
+						m1.Signature = nil
+						muts = append(muts, mutant{"other-round:unsigned", m1})
+						m2 := g
+						m2.DkgRoundID = rid
+						m2.SenderAddr = "mallory"
+						m2.Signature = ed25519.Sign(freshKey("mallory"), m2.Bytes())
+						muts = append(muts, mutant{"other-round:stranger-signed", m2})
+						m3 := g
+						m3.DkgRoundID = rid
+						m3.Signature = append([]byte(nil), g.Signature...)
+						if len(m3.Signature) > 0 {
+							m3.Signature[3] ^= 4
+						}
+						muts = append(muts, mutant{"other-round:bad-signature", m3})
+					}
+					for _, mu := range muts {
 						err, after, appended := lab.Step(bs.Snap, mu.Msg)
 						evals++
 						cls := fmt.Sprintf("%s|%s|%s", bs.Phase, g.Event, mutClass(mu.Label))
